@@ -1,0 +1,71 @@
+//go:build verif
+
+package fasthttp
+
+// Contracts for the scheme / TLS plumbing of client.go, checked by /verif/gocv (comment-only; compiled to nothing).
+
+// Client.Do: the host client is looked up with isTLS equal to "the URL scheme is https"; other schemes are refused.
+//@ func Client.Do results err
+//@   property C21
+//@   mode skeleton
+//@   ghost https bool
+//@   ghost http bool
+//@   ghost looked bool = false
+//@   ghost sent bool = false
+//@   on call URI.isHTTPS -> r:
+//@     returns https
+//@   on call URI.isHTTP -> r:
+//@     returns http
+//@   on call Client.hostClient(_, h, tls) -> hc, e:
+//@     requires[tls-flag-is-scheme] tls == https && (https || http)
+//@     effect looked = true
+//@   on call HostClient.Do:
+//@     requires[through-host-client-lookup] looked
+//@     effect sent = true
+//@   end
+//@   ensures[other-schemes-refused] !https && !http ==> !sent && err != nil
+
+// Client.hostClient: the map is chosen by isTLS and a new HostClient is created with IsTLS == isTLS.
+//@ func Client.hostClient results hc err
+//@   property C21
+//@   mode skeleton
+//@   stable c.m c.ms
+//@   on call AddMissingPort(a, tls):
+//@     requires[port-by-scheme] tls == isTLS
+//@     requires[map-by-scheme] isTLS ? m == c.ms : m == c.m
+//@   on call field:ConfigureClient(h):
+//@     requires[created-with-scheme] h.IsTLS == isTLS
+
+// dialAddr: for TLS the returned connection is wrapped by crypto/tls with the given config (or is already a
+// TLS connection by the Handshake() convention); for plaintext it is never wrapped.
+//@ func dialAddr results rc err
+//@   property C21
+//@   mode skeleton
+//@   ghost wrapped bool = false
+//@   on call tls.Client(cn, cfg):
+//@     requires[config-of-this-dial] cfg == tlsConfig
+//@     effect wrapped = true
+//@   on call tlsClientHandshake(cn, cfg, d):
+//@     requires[config-of-this-dial] cfg == tlsConfig
+//@     effect wrapped = true
+//@   on call callDialFunc(a, d1, d2, ds, tls, t):
+//@     requires[same-address-and-scheme] eq(a, addr) && tls == isTLS
+//@   end
+//@   ensures[tls-is-wrapped] err == nil && isTLS ==> wrapped || isTLSAlready
+//@   ensures[plaintext-not-wrapped] !isTLS ==> !wrapped
+
+// dialHostHard: dialAddr gets the client's IsTLS and the TLS config cached for the address being dialled.
+//@ func HostClient.dialHostHard
+//@   property C21
+//@   mode skeleton
+//@   stable c.IsTLS
+//@   ghost cfgForAddr bool = false
+//@   on call HostClient.cachedTLSConfig(_, a) -> cfg, e:
+//@     requires[config-for-dialled-address] eq(a, addr)
+//@     effect cfgForAddr = true
+//@   on call dialAddr(a, d1, d2, ds, tls, cfg, dt, wt):
+//@     requires[scheme-of-client] tls == c.IsTLS
+//@     requires[address-of-config] eq(a, addr) && (c.IsTLS ==> cfgForAddr && cfg == tlsConfig)
+//@   end
+//@   loop 1:
+//@     iter cfgForAddr = false
